@@ -18,7 +18,13 @@ pub(crate) fn impl_sqrt(n: &BigUint, scale: i64, ctx: &Context) -> BigDecimal {
     // the scale of the shifted radicand must be even for its integer root
     // to carry the digits of the decimal root
     let exponent = shift + u64::from((i128::from(scale) + i128::from(shift)).is_odd());
-    let sqrt_digits = (n * ten_to_the_uint(exponent)).sqrt();
+    let radicand = n * ten_to_the_uint(exponent);
+    let mut sqrt_digits = radicand.sqrt();
+    if &sqrt_digits * &sqrt_digits != radicand {
+        // the root is inexact: a sticky digit below the guard digits keeps
+        // an all-zero (or exactly-half) tail from being rounded as if exact
+        sqrt_digits = sqrt_digits * 10u8 + 1u8;
+    }
 
     // Calculate the scale of the result
     let result_scale_digits = 2 * (2 * prec - scale_diff) - 1;
